@@ -25,7 +25,8 @@ View == <<vc, ac, hist, cons, rtp, rm, uid, now, npub, ended, rr>>
 
 T0 == 1000
 DefN == 100
-AscTab(v) == CASE v = 1 -> <<2, 4, 2>> [] v = 2 -> <<2, 3, 2>> [] OTHER -> <<2, 11, 1>>
+AscTab(v) == CASE v = 1 -> <<2, 4, 2>> [] v = 2 -> <<2, 3, 2>> [] v = 4 -> <<2, 3, 6>> [] v = 5 -> <<1, 4, 7>>
+               [] v = 6 -> <<4, 0, 2>> [] v = 7 -> <<2, 12, 4>> [] OTHER -> <<2, 11, 1>>
 
 \* ---- message kinds (nal types per message) ----
 K(name, key, cts, nals, newps) == [name |-> name, key |-> key, cts |-> cts, nals |-> nals, newps |-> newps]
